@@ -211,15 +211,19 @@ func runC04(line string) string {
 						break
 					}
 				}
-				sc.send(bulkArr([]byte("exists"), pk).bytes(), nil)
-				sc.recv(4 * time.Second)
+				// sacrificial requests for a key of the dead node until one is answered by its successor: the first may
+				// still meet the lost connection ("backend exited"), the next is refused on dial, which triggers a refresh;
+				// a refresh that was already in flight may even bring the old layout once more
 				ok := false
-				for t := 0; t < 600; t++ {
-					if sp.counter("upstream.slots_refresh.success_total") > before {
+				for try := 0; try < 40 && !ok; try++ {
+					sc.send(bulkArr([]byte("exists"), pk).bytes(), nil)
+					rp, err := sc.recv(4 * time.Second)
+					if err == nil && rp.t != '-' {
 						ok = true
 						break
 					}
-					time.Sleep(5 * time.Millisecond)
+					waitFor(150*time.Millisecond, func() bool { return sp.counter("upstream.slots_refresh.success_total") > before })
+					before = sp.counter("upstream.slots_refresh.success_total")
 				}
 				if !ok {
 					replies = append(replies, "NO-REFRESH-AFTER-FAILOVER")
